@@ -335,15 +335,27 @@ func checkC09(v *tunView, m *connModel) {
 				hb = append(hb, x)
 				if x.F.Channel != ep.Channel {
 					// a heartbeat exchange of the previous epoch may still be repeating its request
-					if !chainBack(v, x, ep.Start, c.R+eps) {
+					// (or was built just before the change and left late: a write that stalled, a task that was held)
+					if !chainBack(v, x, ep.Start, c.R+eps) && x.At.T > ep.Start.T+eps {
 						e.Violate("C09", "heartbeat-wrong-channel", "connection-state request at %v carries channel %d, the connection's channel is %d", x.At.T, x.F.Channel, ep.Channel)
 					}
 				}
 			}
 		}
+		// The receive loop may have waited for pending Sends before it started (stall window): its
+		// heartbeat ticker is created when the wait ends. A request seen before that comes from a
+		// heartbeat goroutine of the previous epoch that got going late and says nothing about
+		// this epoch's cadence.
 		prev := ep.Start.T
-		slack := ep.StallUntil - ep.Start.T // the receive loop may have waited for pending Sends before it started
+		slack := time.Duration(0)
+		if ep.StallUntil > prev {
+			prev = ep.StallUntil
+		}
+		from := prev
 		for _, x := range hb {
+			if ep.StallUntil > ep.Start.T && x.At.T <= from {
+				continue
+			}
 			if x.At.T-prev > c.H+eps+slack {
 				e.Violate("C09", "heartbeat-gap", "epoch %d (channel %d): no connection-state request between %v and %v; heartbeat interval is %v", k, ep.Channel, prev, x.At.T, c.H)
 				break
@@ -357,6 +369,13 @@ func checkC09(v *tunView, m *connModel) {
 		// every unanswered request is repeated within the resend interval (or the exchange ends)
 		for i, x := range hb {
 			if x.F.Channel != ep.Channel {
+				continue
+			}
+			if k > 0 && x.At.T < ep.Start.T+c.H-eps {
+				// this epoch's own ticker has not fired yet: the request comes from a heartbeat
+				// goroutine of the previous epoch that got going late (it reads the channel when
+				// it builds the request) and whose exchange ends as soon as it looks at its closed
+				// result channel
 				continue
 			}
 			lim := x.At.T + c.R + eps
@@ -463,7 +482,13 @@ func checkC09(v *tunView, m *connModel) {
 				}
 			}
 			for _, y := range v.rx {
-				if y.F.OK && y.F.Svc == svcConnStateRes && y.F.Channel == ep.Channel && y.F.Status != 0 && y.At.T >= t0-c.R-eps && y.At.Seq <= ep.End.Seq {
+				// (a response that the socket read while the loop was still waiting for the sender
+				// lock is processed - and then on offer for one resend interval - when the stall ends)
+				yt := y.At.T
+				if yt < ep.StallUntil {
+					yt = ep.StallUntil
+				}
+				if y.F.OK && y.F.Svc == svcConnStateRes && y.F.Channel == ep.Channel && y.F.Status != 0 && y.At.Seq > ep.Start.Seq && yt >= t0-c.R-eps && y.At.Seq <= ep.End.Seq {
 					excused = true
 				}
 			}
@@ -587,7 +612,10 @@ func checkC10(v *tunView, m *connModel) {
 	first := r.h.Closes[0]
 	for i, cc := range r.h.Closes {
 		if !cc.Done {
-			e.Violate("C10", "close-hangs", "Close call %d invoked at %v never returned", i, cc.Inv.T)
+			// (a closer whose turn came in the last instants of the run has not had the time to return)
+			if e.S.Now()-cc.Inv.T > time.Duration(2+len(r.h.Sends))*(c.T+eps) {
+				e.Violate("C10", "close-hangs", "Close call %d invoked at %v never returned", i, cc.Inv.T)
+			}
 			continue
 		}
 		// Close waits for the receive loop; inside a reconnect exchange that loop waits for its
@@ -597,7 +625,9 @@ func checkC10(v *tunView, m *connModel) {
 		// may be served first.
 		pend := 0
 		for _, sc := range r.h.Sends {
-			if sc.Inv.T <= cc.Inv.T+c.T+eps && (!sc.Done || sc.Ret.Seq > cc.Inv.Seq) {
+			// (the loop may ask for the lock a second time - reconnect after the stall - so every
+			// Send that overlaps the Close call may be one it has to wait for)
+			if sc.Inv.Seq < cc.Ret.Seq && (!sc.Done || sc.Ret.Seq > cc.Inv.Seq) {
 				pend++
 			}
 		}
